@@ -105,16 +105,96 @@ CASE_TIMEOUT = 30
 
 _PY = sys.executable
 _PROBE = str(VERIF / "harness" / "c20_probe.py")
-_state = {"facts": None, "lock": None, "static": {}, "behaviour": {}, "random": None, "error": None}
+_state = {"facts": None, "lock": None, "static": {}, "behaviour": {}, "random": None, "error": None, "greads": None}
 
 
 # ----------------------------------------------------------------------------------------------------------
 # facts / generated Lean files
 
-def _facts():
-    if _state["facts"] is None:
-        _state["facts"] = extract_facts.extract(str(REPO))
-    return _state["facts"]
+ZOO = VERIF / "harness" / "c20_zoo"      # the self-test package (every construct the translator knows; not lena)
+TREES = {"repo": REPO, "zoo": ZOO}
+
+
+def _facts(tree="repo"):
+    if tree == "repo":
+        if _state["facts"] is None:
+            _state["facts"] = extract_facts.extract(str(REPO))
+        return _state["facts"]
+    if _state.get("zoo_facts") is None:
+        _state["zoo_facts"] = extract_facts.extract(str(ZOO))
+    return _state["zoo_facts"]
+
+
+def _tree_payload():
+    """the facts of the self-test package as the driver decodes them"""
+    if _state.get("zoo_payload") is None:
+        f = _facts("zoo")
+        mods = [{"name_id": m["name_id"], "parent": m["parent"], "short_id": m["short_id"], "all_ids": m["all_ids"],
+                 "evs": m["evs"], "funcs": [{"name_id": fn["name_id"], "line": fn["line"], "evs": fn["evs"]}
+                                            for fn in m["funcs"]]} for m in f["modules"]]
+        _state["zoo_payload"] = {"facts": {"modules": mods, "entries": f["entries"], "n_builtins": f["n_builtins"],
+                                           "private": f["private"], "n_bindable": f["n_bindable"],
+                                           "slot_bits": f["slot_bits"], "venv_env": f["venv_env"], "envs": f["envs"],
+                                           "names": f["names"], "ext": f["ext"]}}
+    return _state["zoo_payload"]
+
+
+def _fn_greads(tree="repo"):
+    """(module, qualified name, line) -> the global names the translator's events of that function read"""
+    if tree != "repo":
+        return _greads_of(_facts(tree))
+    if _state.get("greads") is None:
+        _state["greads"] = _greads_of(_facts())
+    return _state["greads"]
+
+
+def _greads_of(facts):
+    if True:
+        if True:
+        names = facts["names"]
+        tab = {}
+        for m in facts["modules"]:
+            for f in m["funcs"]:
+                tab[(m["name"], f["name"], f["line"])] = sorted(
+                    {names[e[1]] for e in f["evs"] if e[0] in ("load", "attr")
+                     and not names[e[1]].endswith(extract_facts.LOCAL_SUFFIX)})
+            return tab
+
+
+def _source_counts(tree="repo"):
+    """an independent count (plain ast.walk, no scoping) of what the translator must account for"""
+    import ast
+    import warnings
+    facts = _facts(tree)
+    tot = {"names": 0, "attributes": 0, "imports": 0, "functions": 0}
+    for m in facts["modules"]:
+        if not m.get("path"):
+            continue
+        with warnings.catch_warnings():
+            warnings.simplefilter("ignore")
+            mod_ast = ast.parse((TREES[tree] / m["path"]).read_text())
+        for n in ast.walk(mod_ast):
+            if isinstance(n, ast.Name):
+                tot["names"] += 1
+            elif isinstance(n, ast.Attribute):
+                tot["attributes"] += 1
+            elif isinstance(n, (ast.Import, ast.ImportFrom)):
+                tot["imports"] += 1
+            elif isinstance(n, (ast.FunctionDef, ast.AsyncFunctionDef, ast.Lambda)):
+                tot["functions"] += 1
+    return tot
+
+
+def _translator_coverage(tree="repo"):
+    facts = _facts(tree)
+    tot = {}
+    for m in facts["modules"]:
+        for k, c in (m.get("coverage") or {}).items():
+            t = tot.setdefault(k, {"source": 0, "translated": 0, "dead_version_branch": 0,
+                                   "unevaluated_annotation": 0, "missed": []})
+            for kk, v in c.items():
+                t[kk] = t[kk] + v
+    return tot
 
 
 def _cleanup_alt():
@@ -163,38 +243,38 @@ def _pre_build(ctx):
 # ----------------------------------------------------------------------------------------------------------
 # probes (fresh interpreters)
 
-def _absent(env):
+def _absent(env, tree="repo"):
     """names of the third-party modules that are absent in environment `env` (a bit set over facts["ext"])"""
-    return [x for i, x in enumerate(_facts()["ext"]) if (env >> i) & 1]
+    return [x for i, x in enumerate(_facts(tree)["ext"]) if (env >> i) & 1]
 
 
-def _testable(env):
+def _testable(env, tree="repo"):
     """can this environment be produced in a fresh interpreter?  Absence can always (sys.modules[name] = None);
     presence only of what is installed (a stub would not behave like the real module at import time)"""
-    facts = _facts()
+    facts = _facts(tree)
     return all(((env >> i) & 1) or extract_facts._ext_available(x) for i, x in enumerate(facts["ext"]))
 
 
-def _run_probe(mode, pkg, env):
-    facts = _facts()
+def _run_probe(mode, pkg, env, tree="repo"):
+    facts = _facts(tree)
     penv = dict(os.environ, PYTHONWARNINGS="ignore", PYTHONDONTWRITEBYTECODE="1", PYTHONHASHSEED="0")
     penv.pop("PYTHONPATH", None)
     # -I: isolated (no PYTHONPATH, no script directory on sys.path); the probe puts the tree under test first
     opts = dict(_state["random"] or {}) if mode != "static" else {}
-    opts["absent"] = _absent(env)
+    opts["absent"] = _absent(env, tree)
     extra = [json.dumps(opts)]
-    p = subprocess.run([_PY, "-I", _PROBE, str(REPO), mode, pkg, json.dumps(facts["subpackages"])] + extra,
+    p = subprocess.run([_PY, "-I", _PROBE, str(TREES[tree]), mode, pkg, json.dumps(facts["subpackages"])] + extra,
                        capture_output=True, text=True, timeout=600, env=penv, cwd="/tmp")
     if p.returncode != 0 or not p.stdout.strip():
         raise RuntimeError(f"probe {mode} {pkg} env={env} failed rc={p.returncode}: {p.stderr[-1500:]}")
     return json.loads(p.stdout)
 
 
-def _probe(mode, pkg, env):
-    key = (mode, pkg, env)
+def _probe(mode, pkg, env, tree="repo"):
+    key = (mode, pkg, env) if tree == "repo" else (mode, pkg, env, tree)
     tab = _state["static"] if mode == "static" else _state["behaviour"]
     if key not in tab:
-        tab[key] = _run_probe(mode, pkg, env)
+        tab[key] = _run_probe(mode, pkg, env, tree)
     return tab[key]
 
 
@@ -206,10 +286,14 @@ def _probe_all(ctx):
             continue
         jobs += [("static", p, env) for p in facts["subpackages"] + ["all"]]
         jobs += [(m, p, env) for p in facts["subpackages"] for m in ("behaviour", "behaviour-full")]
+    zf = _facts("zoo")
+    for env in zf["envs"]:
+        if _testable(env, "zoo"):
+            jobs += [("static", p, env, "zoo") for p in zf["subpackages"] + ["all"]]
     todo = [j for j in jobs if j not in _state["static"] and j not in _state["behaviour"]]
     with concurrent.futures.ThreadPoolExecutor(max_workers=8) as ex:
-        for (mode, pkg, env), res in zip(todo, ex.map(lambda j: _run_probe(*j), todo)):
-            (_state["static"] if mode == "static" else _state["behaviour"])[(mode, pkg, env)] = res
+        for j, res in zip(todo, ex.map(lambda j: _run_probe(*j), todo)):
+            (_state["static"] if j[0] == "static" else _state["behaviour"])[j if len(j) == 4 else j[:3]] = res
 
 
 def _entry_name(pkg):
@@ -264,7 +348,30 @@ def _gen_cases(ctx):
                 cases.append({"kind": "behaviour", "pkg": pkg, "name": None, "env": env, "absent": ab})
             for n in names:
                 cases.append({"kind": "behaviour", "pkg": pkg, "name": n, "env": env, "absent": ab})
+    # the self-test package: the same translator, the same Lean definitions, fresh interpreters and the bytecode
+    # oracle must agree on every construct -- also on the ones the repository does not use, and on failures
+    zf = _facts("zoo")
+    zby = {m["name"]: m for m in zf["modules"]}
+    cases.append({"kind": "meta", "tree": "zoo"})
+    for env in zf["envs"]:
+        if not _testable(env, "zoo"):
+            continue
+        ab = _absent(env, "zoo")
+        for pkg in zf["subpackages"] + ["all"]:
+            cases.append({"kind": "entry", "tree": "zoo", "entry": pkg, "env": env, "absent": ab})
+            pr = _probe("static", pkg, env, "zoo")
+            if pr["import"] != "ok":
+                continue
+            keys = set(pr.get("funcs", {}))
+            for mname in pr.get("loaded", []):
+                for f in zby.get(mname, {}).get("funcs", []):
+                    keys.add(f"{mname}|{f['name']}|{f['line']}")
+            for k in sorted(keys):
+                mname, q, line = k.rsplit("|", 2)
+                cases.append({"kind": "func", "tree": "zoo", "entry": pkg, "env": env, "absent": ab, "module": mname,
+                              "func": q, "line": int(line)})
     notes = getattr(ctx, "notes", [])
+    notes.append({"self_test_package": {"tree": str(ZOO), "translator": zf["stats"]}})
     notes.append({"environments": [{"env": e, "absent": _absent(e), "tested_in_fresh_interpreters": e not in untestable}
                                    for e in facts["envs"]],
                   "third_party_modules_of_import_time_code": facts["ext"], "never_importable_here": facts["always_absent"]})
@@ -279,18 +386,21 @@ def run_impl(case):
     kind = case["kind"]
     if kind == "harness-error":
         raise RuntimeError(case["error"])
-    facts = _facts()
+    tree = case.get("tree", "repo")
+    facts = _facts(tree)
     if kind == "meta":
-        return {"hash": facts["source_hash"], "modules": [m["name"] for m in facts["modules"]]}
+        return {"hash": facts["source_hash"], "modules": [m["name"] for m in facts["modules"]],
+                "source_counts": _source_counts(tree), "translator_coverage": _translator_coverage(tree)}
     if kind == "entry":
-        pr = _probe("static", case["entry"], case["env"])
+        pr = _probe("static", case["entry"], case["env"], tree)
         return {"import": pr["import"], "star": pr["star"], "loaded": pr["loaded"], "ns": pr["ns"]}
     if kind == "func":
-        pr = _probe("static", case["entry"], case["env"])
+        pr = _probe("static", case["entry"], case["env"], tree)
         ent = pr["funcs"].get(f"{case['module']}|{case['func']}|{case['line']}")
         if ent is None:
             return {"present": False, "import": pr["import"] if pr["import"] != "ok" else None}
-        return {"present": True, "loads": ent["loads"], "problems": ent["problems"], "forked": ent["forked"]}
+        return {"present": True, "loads": ent["loads"], "problems": ent["problems"], "forked": ent["forked"],
+                "greads": ent.get("greads", [])}
     if kind == "behaviour":
         own = _probe("behaviour", case["pkg"], case["env"])
         full = _probe("behaviour-full", case["pkg"], case["env"])
@@ -304,13 +414,14 @@ def run_impl(case):
 
 def model_requests(case):
     kind = case["kind"]
+    extra = {"tree": _tree_payload()} if case.get("tree") == "zoo" else {}
     if kind == "meta":
-        return [{"op": "meta"}]
+        return [dict({"op": "meta"}, **extra)]
     if kind == "entry":
-        return [{"op": "entry", "e": _entry_name(case["entry"]), "env": case["env"]}]
+        return [dict({"op": "entry", "e": _entry_name(case["entry"]), "env": case["env"]}, **extra)]
     if kind == "func":
-        return [{"op": "call", "e": _entry_name(case["entry"]), "env": case["env"], "m": case["module"],
-                 "f": case["func"], "line": case["line"]}]
+        return [dict({"op": "call", "e": _entry_name(case["entry"]), "env": case["env"], "m": case["module"],
+                      "f": case["func"], "line": case["line"]}, **extra)]
     return []
 
 
@@ -322,9 +433,10 @@ def compare(case, res, replies):
     m = replies[0]
     if "err" in m and isinstance(m["err"], str):
         return f"model driver error: {m['err']}"
-    facts = _facts()
+    tree = case.get("tree", "repo")
+    facts = _facts(tree)
     if kind == "meta":
-        if m.get("hash") != res["hash"]:
+        if tree == "repo" and m.get("hash") != res["hash"]:
             return f"the Lean facts were generated from another tree: {m.get('hash')} vs {res['hash']}"
         if m.get("modules") != res["modules"]:
             return "module list of the Lean facts differs from the translator's"
@@ -332,6 +444,13 @@ def compare(case, res, replies):
             return "layoutOk is false for the generated facts"
         if m.get("ext") != facts["ext"] or m.get("envs") != facts["envs"]:
             return f"environments of the Lean facts {m.get('ext')} {m.get('envs')} differ from the translator's"
+        # translator coverage: every Name / Attribute / import statement / function of the source is accounted for
+        for k, n_src in res["source_counts"].items():
+            c = res["translator_coverage"].get(k, {})
+            acc = c.get("translated", 0) + c.get("dead_version_branch", 0) + c.get("unevaluated_annotation", 0)
+            if c.get("missed") or acc != n_src or c.get("source") != n_src:
+                return (f"translator coverage of {k}: {n_src} in the source (ast.walk), {acc} accounted for; "
+                        f"not visited: {c.get('missed', [])[:5]}")
         return None
     if kind == "entry":
         imp_ok = res["import"] == "ok"
@@ -373,6 +492,20 @@ def compare(case, res, replies):
         # the static import closure is the set of loaded modules
         if not m.get("closureClosed"):
             return "closedSetB is false for the import closure of this entry"
+        # spec-side definitions, executed: the exploration is closed, the set of callable functions is the set of
+        # functions of the loaded modules, names bound to lena modules are bound to imported ones (also in reality)
+        n_fun = sum(1 for mm in facts["modules"] if mm["name"] in res["loaded"] for f in mm["funcs"] if f["evs"])
+        if m.get("callables") != n_fun:
+            return f"callables: model {m.get('callables')}, functions with events in the loaded modules {n_fun}"
+        if not m.get("attrInv"):
+            return "AttrInv is false in the model state"
+        for mod in res["loaded"]:
+            for k, v in res["ns"][mod].items():
+                if v.startswith("mod:") and v[4:] not in res["loaded"]:
+                    return f"interpreter: {mod}.{k} is the module {v[4:]}, which is not in sys.modules"
+        if bool(m.get("resolves")) != str(m.get("explore", "")).startswith("closed"):
+            if m.get("exported"):
+                return f"resolvesEntry = {m.get('resolves')} but explore = {m.get('explore')}"
         # the static import closure bounds sys.modules from above (theorem loaded_within_closure); it is equal
         # unless an import sits in a branch that this interpreter does not take
         outside = sorted(set(res["loaded"]) - set(m["closure"]))
@@ -390,16 +523,21 @@ def compare(case, res, replies):
                     if res["loads"] or res["problems"] else None)
         if not r:
             return "no reachable state in the model"
+        mine = _fn_greads(tree).get((case["module"], case["func"], case["line"]), [])
+        if sorted(res.get("greads", [])) != mine:
+            return (f"global names read: bytecode-only {sorted(set(res.get('greads', [])) - set(mine))}, "
+                    f"translator-only {sorted(set(mine) - set(res.get('greads', [])))}")
         bad_model = [x for x in r if x != "ok" and x != "not-callable"]
         if r[0] == "not-callable":
             return "the model does not consider the function callable after the import of the entry"
         if res["problems"]:
-            if r[0] == "ok":
-                return f"bytecode: unresolved {res['problems']}; model: resolves"
+            if not bad_model:
+                return f"bytecode: unresolved {res['problems']}; model: resolves in every reachable state"
             names = {(p["kind"], p["name"]) for p in res["problems"]}
-            mname = (r[0].get("name") or "").replace(extract_facts.LOCAL_SUFFIX, "")
-            if (r[0].get("kind"), mname) not in names and r[0].get("kind") != "ImportError":
-                return f"bytecode: unresolved {res['problems']}; model: {r[0]}"
+            b0 = bad_model[0]
+            mname = (b0.get("name") or "").replace(extract_facts.LOCAL_SUFFIX, "")
+            if (b0.get("kind"), mname) not in names and b0.get("kind") != "ImportError":
+                return f"bytecode: unresolved {res['problems']}; model: {b0}"
             return None
         if bad_model:
             return f"bytecode: every load resolves; model: {bad_model[0]}"
@@ -418,6 +556,8 @@ def _envtxt(case):
 
 def oracle(case, res):
     """the property's own statement on the real code"""
+    if case.get("tree", "repo") != "repo":
+        return None         # the self-test package is not the code under test: only agreement is checked
     msg = _oracle(case, res)
     return msg + _envtxt(case) if msg else None
 
@@ -441,7 +581,16 @@ def _oracle(case, res):
         if res.get("present") and res["problems"]:
             p = res["problems"][0]
             where = f"{case['module']}, function {case['func']} (line {case['line']})"
-            if p["kind"] == "NameError" and p.get("unbound_local"):
+            if p["kind"] == "NameError" and p.get("after_call_of"):
+                what = (f"global name '{p['name']}' is deleted by a call of {p['after_call_of']} (`global {p['name']}; "
+                        f"del {p['name']}`): not defined when this function is called afterwards")
+            elif p["kind"] == "NameError" and p.get("inner"):
+                what = (f"free variable '{p['name']}' of the inner function {p['inner']} may be unbound when that "
+                        f"function is called (the enclosing function has not certainly bound it by then)")
+            elif p["kind"] == "AttributeError" and p.get("inner"):
+                what = (f"module '{p.get('on')}' has no attribute '{p['name']}' (read through the free variable "
+                        f"'{p.get('root')}' in the inner function {p['inner']})")
+            elif p["kind"] == "NameError" and p.get("unbound_local"):
                 what = (f"local name '{p['name']}' is bound only by an import statement that is not certain to have "
                         f"run (UnboundLocalError)")
             elif p["kind"] == "NameError":
